@@ -225,6 +225,24 @@ reg(["C13", "C01"], H("cv::cv_flowsets_concat", unwind=4, timeout=2400, mem_gb=3
     bounds={"bytes": 97, "structure": "written", "values": "symbolic"}))
 
 
+# ---------------------------------------------------------------- end-to-end histories
+_E = {"structure": "written (versions, lengths, counts, field type 1 / length 2)", "symbolic": "template id, data set id, header words, data bytes"}
+reg(["C06", "C07", "C11", "C05", "C01"], H("e2e::e2e_ipfix_chained", unwind=6, timeout=3000, mem_gb=30,
+    desc="parse_bytes(template message || data message), real IPFIX decoder: packet 2 decoded with the template learned from packet 1 (same parser for the tail); undefined id => set omitted; V9 cache untouched",
+    bounds=dict(_E, bytes=52, packets=2, records=2), assumptions=[_K9]))
+reg(["C06", "C11"], H("e2e::e2e_ipfix_split", unwind=6, timeout=3000, mem_gb=30, tier="thorough",
+    desc="same history delivered in two parse_bytes calls gives the same results", bounds=dict(_E, bytes=52, packets=2), assumptions=[_K9]))
+reg(["C06", "C07"], H("e2e::e2e_ipfix_two_parsers", unwind=6, timeout=3000, mem_gb=30, tier="thorough",
+    desc="template learned by one parser instance is invisible to another", bounds=dict(_E, bytes=52), assumptions=[_K9]))
+reg(["C06", "C07", "C11", "C04", "C01"], H("e2e::e2e_v9_chained", unwind=6, timeout=3000, mem_gb=30,
+    desc="parse_bytes(V9 template packet || V9 data packet): data decoded with the template from packet 1; undefined id => Error element carrying packet 2; IPFIX cache untouched",
+    bounds=dict(_E, bytes=60, packets=2, records=2), assumptions=[_K9]))
+reg(["C06", "C11"], H("e2e::e2e_v9_split", unwind=6, timeout=3000, mem_gb=30, tier="thorough",
+    desc="same V9 history in two calls gives the same results", bounds=dict(_E, bytes=60), assumptions=[_K9]))
+reg(["C06", "C07"], H("e2e::e2e_v9_template_ipfix_data", unwind=6, timeout=3000, mem_gb=30, tier="thorough",
+    desc="a V9 template does not govern an IPFIX data set of the same id (protocol scoping)", bounds=dict(_E, bytes=56), assumptions=[_K9]))
+
+
 def all_harnesses():
     return list(_ALL)
 
